@@ -84,6 +84,10 @@ def handleFmt (toks : List String) : Option String :=
   | ["rt_md", m, d, _] => do
     let m ← int? m; let d ← int? d
     some ((do let _ ← monthDayNew m d .reject none; pure (1 : Int) : Out Int).render toString)
+  | ["rt_insto", ns, _] => do
+    -- written with a numeric offset (below the limits: whenever the instant exists) and read back: the same instant
+    let ns ← int? ns
+    some ((do let _ ← instantTryNew ns; pure (1 : Int) : Out Int).render toString)
   | ["rt_inst", ns] => do
     let ns ← int? ns
     some ((do let _ ← instantTryNew ns; pure (1 : Int) : Out Int).render toString)
